@@ -7,16 +7,18 @@
    every *input* a spec accepts is refuted below (a sender completes or replaces its input from
    its own default / frozen value). *)
 From PG Require Import Common.Tactics Model.Typing Proofs.TypingBasics Proofs.TypingApply
-                       Proofs.TypingCompat Proofs.TypingExtend Proofs.TypingTheorems.
+                       Proofs.TypingCompat Proofs.TypingExtend Proofs.TypingDict Proofs.TypingApplyDict
+                       Proofs.TypingCompatDict Proofs.TypingTheorems.
 Local Open Scope Z_scope.
 
 (* Applying a spec to a value it accepts yields a value it accepts again and maps to itself:
-   Bool/Int/Float/Str/Enum/Object/Any/Dict() and List/Tuple (fixed, variable) over them, any
-   ranges, sizes, flags (noneable, default, frozen), nesting, allow_partial or not.
-   Missing from the full statement: Dict with a schema, Union (see the refutation). *)
-Theorem C04_apply_idempotent_partial : forall s, no_union s = true -> no_schema s = true ->
+   every spec class but Union — Bool/Int/Float/Str/Enum/Object/Any, List, Tuple (fixed and
+   variable), Dict (schema-less, const keys, StrKey() field; keys distinct as in any Python dict)
+   — any ranges, sizes, flags (noneable, default, frozen), nesting, allow_partial or not.
+   Missing from the full statement: Union (refuted below). *)
+Theorem C04_apply_idempotent_partial : forall s, no_union s = true -> keys_ok s = true ->
   forall p v v', apply p s v = Ok v' -> apply p s v' = Ok v'.
-Proof. exact apply_idempotent_seq. Qed.
+Proof. exact apply_idempotent. Qed.
 Print Assumptions C04_apply_idempotent_partial.
 
 (* Union.apply is not idempotent in general (open finding): the accepting candidate's frozen value
@@ -27,22 +29,22 @@ Proof. exact union_idempotence_refuted. Qed.
 Print Assumptions C04_apply_idempotent_union_refuted.
 
 (* A spec's own default is acceptable to it: the constructors store what apply (allow_partial)
-   returns for the given default, then set the frozen flag. *)
+   returns for the given default, then set the frozen flag.  Same fragment (no Union). *)
 Theorem C04_default_acceptable_partial : forall s d d' fz,
-  no_union s = true -> no_schema s = true ->
+  no_union s = true -> keys_ok s = true ->
   apply true (unfreeze s) d = Ok d' ->
   apply true (with_mods s (Mods (noneable (mods_of s)) (Some d') fz)) d' = Ok d'.
-Proof. exact default_acceptable_seq. Qed.
+Proof. exact default_acceptable. Qed.
 Print Assumptions C04_default_acceptable_partial.
 
 (* If a declares itself compatible with b, every value of b is accepted by a.  With every quirk
-   flag off (the repaired behaviour), for a receiver without Union and without Dict schema
-   (the sender b is arbitrary). *)
+   flag off (the repaired behaviour), for every receiver a without Union inside (all other classes
+   incl. Dict schemas); the sender b is arbitrary (its schemas have distinct keys). *)
 Theorem C04_compat_sound_partial : forall q a b,
-  no_quirks q -> no_union a = true -> no_schema a = true -> wf a -> wf b ->
+  no_quirks q -> no_union a = true -> wf a -> wf b -> keys_ok b = true ->
   compat q a b = true ->
   forall v, total v = true -> conforms b v -> accepts a v.
-Proof. intros q a b NQ NU NS. exact (compat_sound_seq q NQ a NU NS b). Qed.
+Proof. intros q a b NQ NU. exact (compat_sound q NQ a NU b). Qed.
 Print Assumptions C04_compat_sound_partial.
 
 (* What the current code does (flag on): each open finding refutes the statement. *)
